@@ -67,8 +67,10 @@ Proof.
   - apply validate_total_refuted. exact E.
 Qed.
 
-(* ---- 2. "it succeeds only if ..." for every view, every clock, every expected type, every secret ----
-   key is the secret the validating signer was constructed with: the whole byte string, of any length *)
+(* ---- 2. "it succeeds only if ..." for every view, every clock, every expected type, every key ----
+   key is the HMAC key of the validating signer: hmac_key H B applied to the WHOLE secret it was
+   constructed with (H, B: hash and block size of the token's method).  Which secrets are the same
+   key is section 2b. *)
 Theorem accept_sound : forall key aud now v g p,
   validate_tok key aud now v = Ok g p ->
   accepted jwt_aud_assert_checked jwt_dur_assert_checked jwt_sig_canon_checked key aud now v g p.
@@ -84,12 +86,44 @@ Theorem unsigned_rejected : forall key aud now v,
   sig_verifies key v = false -> forall g p, validate_tok key aud now v <> Ok g p.
 Proof. exact (unsigned_rejected_g jwt_aud_assert_checked jwt_dur_assert_checked jwt_sig_canon_checked). Qed.
 
-(* re-signed or issued under a different secret: "different" means different as byte strings of
-   any length - k may be shorter or longer than key, a prefix or an extension of it, or differ
-   from it in a single byte at any position (also beyond the 64-byte minimum length) *)
+(* re-signed or issued under a different HMAC key: never accepted.  The keys are computed from the
+   whole secrets, so secrets of any length that differ anywhere (a prefix, an extension, one byte
+   beyond the 64-byte minimum) are different keys - except for the pairs HMAC itself identifies,
+   see 2b. *)
 Theorem other_secret_rejected : forall key aud now t k,
   tk_mac_key t = Some k -> k <> key -> forall g p, validate_tok key aud now (VTok t) <> Ok g p.
 Proof. exact (other_secret_rejected_g jwt_aud_assert_checked jwt_dur_assert_checked jwt_sig_canon_checked). Qed.
+
+(* ---- 2b. "a signer with the same secret": which secrets are the same HMAC key ----
+   Full statement wanted:  hmac_key H B k = hmac_key H B k' -> k = k'  (only the same secret verifies).
+   It is FALSE for HMAC (refutation: hmac_equivalent_secrets_exist - for every secret whose length is
+   not the block size its key block, used as a secret, is a different secret with the same key: a
+   100-byte secret K and the 64-byte secret SHA-256(K) ++ 32 zero bytes accept each other's HS256
+   tokens; also trailing_zeros_do_not_count).  NewJWTSigner admits every length >= 64, so such pairs
+   are admissible configurations; this is a property of HMAC (RFC 2104), not of the code under test,
+   and whoever holds one secret of such a pair can compute the other's key.  What holds (partial):
+   a secret of exactly the block size is its own key; secrets of one length up to the block size are
+   different keys; secrets longer than the block are different keys unless the hash collides. *)
+Theorem hmac_equivalent_secrets_exist : forall H B k,
+  (B < length k -> length (H k) <= B)%nat -> length k <> B ->
+  exists k', k' <> k /\ hmac_key H B k' = hmac_key H B k.
+Proof. exact secrets_not_injective. Qed.
+
+Theorem trailing_zeros_do_not_count : forall H B k n,
+  (length k + n <= B)%nat -> hmac_key H B (k ++ repeat 0%N n) = hmac_key H B k.
+Proof. exact hmac_key_zero_ext. Qed.
+
+Theorem secret_of_block_length_is_its_key : forall H B k, length k = B -> hmac_key H B k = k.
+Proof. exact hmac_key_block. Qed.
+
+Theorem equal_length_short_secrets_are_different_keys : forall H B k k',
+  length k = length k' -> (length k <= B)%nat -> hmac_key H B k = hmac_key H B k' -> k = k'.
+Proof. exact hmac_key_short_inj. Qed.
+
+Theorem long_secrets_are_different_keys_unless_the_hash_collides : forall H B k k',
+  (B < length k)%nat -> (B < length k')%nat -> length (H k) = length (H k') ->
+  hmac_key H B k = hmac_key H B k' -> H k = H k'.
+Proof. exact hmac_key_long_inj. Qed.
 
 (* "the string is exactly a token issued ...": header and claims segments are covered by the MAC;
    the signature segment is not, and base64 has several spellings of the same bytes (unused low
@@ -197,10 +231,19 @@ Definition ex_t0 : Z := 1767225600999999999.
 Definition ex_d : Z := 1500000001.
 (* secrets longer than the 64-byte minimum that share their first 64 bytes *)
 Definition ex_prefix : bytes := repeat 7%N 64.
-Definition ex_key : bytes := ex_prefix ++ [1;2;3]%N.        (* 67 bytes *)
-Definition ex_key_last : bytes := ex_prefix ++ [1;2;4]%N.   (* differs from ex_key in the last byte only *)
-Definition ex_key_65 : bytes := ex_prefix ++ [9;2;3]%N.     (* differs from ex_key in byte 65 only *)
-Definition ex_key_ext : bytes := ex_key ++ [5]%N.           (* an extension of ex_key *)
+(* stands in for SHA-256 in the examples (3 bytes: sum of the bytes, length) *)
+Definition toy_hash (k : bytes) : bytes :=
+  let s := fold_left N.add k 0%N in [s mod 256; (s / 256) mod 256; N.of_nat (length k) mod 256]%N.
+Definition blk : bytes -> bytes := hmac_key toy_hash 64.
+Definition ex_secret : bytes := ex_prefix ++ repeat 9%N 35 ++ [1]%N.              (* 100 bytes *)
+Definition ex_secret_last : bytes := ex_prefix ++ repeat 9%N 35 ++ [2]%N.         (* other last byte *)
+Definition ex_secret_65 : bytes := ex_prefix ++ [8]%N ++ repeat 9%N 34 ++ [1]%N.  (* other byte 65 *)
+Definition ex_secret_ext : bytes := ex_secret ++ [5]%N.                           (* an extension *)
+Definition ex_secret_equiv : bytes := blk ex_secret.   (* 64 bytes: hash of ex_secret and zeros - another secret, the same key *)
+Definition ex_key : bytes := blk ex_secret.
+Definition ex_key_last : bytes := blk ex_secret_last.
+Definition ex_key_65 : bytes := blk ex_secret_65.
+Definition ex_key_ext : bytes := blk ex_secret_ext.
 Definition ex_view (k : bytes) : view := issued_view k ex_aud ex_app ex_d ex_t0 [50;48;50;54]%N ex_pl (Some 77%N).
 
 (* an issued token: accepted one nanosecond before the expiry instant (which lies 0.5 s before the
@@ -214,13 +257,17 @@ Example issued_nonvacuous :
   /\ validate_tok ex_key ex_aud ex_t0 (ex_view ex_key) = Ok (mkGp ex_app ex_d (Some ex_t0)) 77.
 Proof. vm_compute. repeat split. Qed.
 
-(* two secrets of more than 64 bytes sharing their first 64 bytes are different secrets: the token of
-   one is refused by the other; so is it by the common 64-byte prefix used as a secret, by an
-   extension, and by a secret that differs in byte 65 only.  All of them construct a signer. *)
+(* two secrets of 100 bytes sharing their first 64 bytes are different keys: the token of one is
+   refused by the other; so is it by the common 64-byte prefix used as a secret (its own key), by an
+   extension, and by a secret that differs in byte 65 only.  All of them construct a signer.
+   The 64-byte secret ex_secret_equiv is a different secret with the same key: accepted. *)
 Example other_secret_nonvacuous :
-  firstn 64 ex_key = firstn 64 ex_key_last /\ firstn 64 ex_key = ex_prefix /\ ex_key <> ex_key_last
-  /\ forallb signer_constructible [ex_key; ex_key_last; ex_key_65; ex_key_ext; ex_prefix] = true
+  firstn 64 ex_secret = firstn 64 ex_secret_last /\ firstn 64 ex_secret = ex_prefix /\ ex_secret <> ex_secret_last
+  /\ forallb signer_constructible [ex_secret; ex_secret_last; ex_secret_65; ex_secret_ext; ex_prefix; ex_secret_equiv] = true
   /\ signer_constructible (firstn 63 ex_prefix) = false
+  /\ blk ex_prefix = ex_prefix
+  /\ ex_secret_equiv <> ex_secret /\ length ex_secret_equiv = 64%nat /\ blk ex_secret_equiv = blk ex_secret
+  /\ validate_tok (blk ex_secret) ex_aud ex_t0 (ex_view (blk ex_secret_equiv)) = Ok (mkGp ex_app ex_d (Some ex_t0)) 77
   /\ validate_tok ex_key ex_aud ex_t0 (ex_view ex_key) = Ok (mkGp ex_app ex_d (Some ex_t0)) 77
   /\ validate_tok ex_key_last ex_aud ex_t0 (ex_view ex_key) = Err ESignature
   /\ validate_tok ex_key ex_aud ex_t0 (ex_view ex_key_last) = Err ESignature
@@ -229,7 +276,7 @@ Example other_secret_nonvacuous :
   /\ validate_tok ex_key_65 ex_aud ex_t0 (ex_view ex_key) = Err ESignature
   /\ validate_tok ex_key_ext ex_aud ex_t0 (ex_view ex_key) = Err ESignature
   /\ validate_tok ex_key ex_aud ex_t0 (ex_view ex_key_ext) = Err ESignature.
-Proof. vm_compute. repeat split. discriminate. Qed.
+Proof. vm_compute. repeat split; discriminate. Qed.
 
 (* the oracle on such a pair: acceptance under the other secret is a violation, and so is an equal
    keyed hash; the model disagrees with both *)
@@ -237,11 +284,13 @@ Example key_oracle_nonvacuous :
   let bad := mkTrace ex_key_last ex_key_last false ex_t0 ex_aud ex_app (ex_view ex_key) (OIssued ex_key true ex_app ex_aud ex_t0 ex_d 77 [])
                      (OOk (mkGp ex_app ex_d (Some ex_t0)) 77) (OOk (mkGp ex_app ex_d (Some ex_t0)) 77) None in
   satisfies (TVal bad) = false /\ agrees (TVal bad) = false
-  /\ satisfies (TKeys (mkKeys ex_key ex_key_last true true (Some true))) = false
-  /\ agrees (TKeys (mkKeys ex_key ex_key_last true true (Some true))) = false
-  /\ agrees (TKeys (mkKeys ex_key ex_key_last true true (Some false))) = true
-  /\ satisfies (TKeys (mkKeys ex_key ex_key_last true true (Some false))) = true
-  /\ agrees (TKeys (mkKeys (firstn 63 ex_prefix) ex_prefix false true None)) = true.
+  /\ satisfies (TKeys (mkKeys ex_secret ex_secret_last ex_key ex_key_last true true (Some true))) = false
+  /\ agrees (TKeys (mkKeys ex_secret ex_secret_last ex_key ex_key_last true true (Some true))) = false
+  /\ agrees (TKeys (mkKeys ex_secret ex_secret_last ex_key ex_key_last true true (Some false))) = true
+  /\ satisfies (TKeys (mkKeys ex_secret ex_secret_last ex_key ex_key_last true true (Some false))) = true
+  /\ agrees (TKeys (mkKeys ex_secret ex_secret_equiv ex_key (blk ex_secret_equiv) true true (Some true))) = true
+  /\ satisfies (TKeys (mkKeys ex_secret ex_secret_equiv ex_key (blk ex_secret_equiv) true true (Some true))) = true
+  /\ agrees (TKeys (mkKeys (firstn 63 ex_prefix) ex_prefix (blk (firstn 63 ex_prefix)) ex_prefix false true None)) = true.
 Proof. vm_compute. repeat split. Qed.
 
 (* float64 rounding of the integers seen in the field: 2^53+1, a workspace ID of cluster 65, MaxInt64,
@@ -325,6 +374,11 @@ Print Assumptions accept_sound.
 Print Assumptions accept_app_sound.
 Print Assumptions unsigned_rejected.
 Print Assumptions other_secret_rejected.
+Print Assumptions hmac_equivalent_secrets_exist.
+Print Assumptions trailing_zeros_do_not_count.
+Print Assumptions secret_of_block_length_is_its_key.
+Print Assumptions equal_length_short_secrets_are_different_keys.
+Print Assumptions long_secrets_are_different_keys_unless_the_hash_collides.
 Print Assumptions accepted_spelling_status.
 Print Assumptions issued_accept_iff.
 Print Assumptions issued_other_secret.
